@@ -1161,6 +1161,43 @@ fn loop_oracle(c: &LoopCase, o: &LoopObs, e: &LoopEnc) -> Vec<(String, String)> 
             }
         }
     }
+    // O7: calls that get no next request — only the last round's, and only for a named reason (no response id to
+    // chain to in stateful mode and then nothing executed; the 32-call bound; the follow-up refused by the schema
+    // gate, and then the refused payload is exactly the answer to these calls).  Clean rounds only.
+    if let Some(k) = o.bodies.len().checked_sub(1) {
+        if let Some((rd, exp)) = c.rounds.get(k).and_then(|rd| rd.expected.as_ref().map(|x| (rd, x))) {
+            if rd.mode == 0 && !exp.is_empty() {
+                let want: Vec<String> = exp.iter().map(|c| c.call_id.clone()).collect();
+                match e.reason.as_str() {
+                    "invalid_request" => {
+                        let items: Vec<Value> = e.rejected.as_ref().and_then(|b| b["input"].as_array().cloned()).unwrap_or_default();
+                        let outs = outputs_of(&items);
+                        let skip = if c.stateless { outputs_of(&inputs[k]).len().min(outs.len()) } else { 0 };
+                        let ids: Vec<String> = outs[skip..].iter().map(|i| i["call_id"].as_str().unwrap_or("").to_string()).collect();
+                        if ids != want {
+                            bad.push((format!("round {k} announced calls {want:?}; the follow-up the gate refused answers {ids:?}"), "refused_followup_is_not_the_answer".to_string()));
+                        }
+                        if e.refused_why.is_empty() {
+                            bad.push((format!("round {k}: the follow-up answering {want:?} was refused although it satisfies the schema"), "valid_followup_refused".to_string()));
+                        }
+                    }
+                    "max_tool_calls_exceeded" => {
+                        if processed != 32 {
+                            bad.push((format!("round {k}: calls {want:?} left unanswered for the tool-call bound after {processed} calls"), "unanswered_without_reason".to_string()));
+                        }
+                    }
+                    "provider_error" => {
+                        let announced = rd.events.iter().any(|ev| ev.get("response").and_then(|x| x.get("id")).and_then(|x| x.as_str()).map(|x| !x.is_empty()).unwrap_or(false));
+                        let chained = o.bodies[k]["previous_response_id"].as_str().map(|x| !x.is_empty()).unwrap_or(false);
+                        if c.stateless || announced || chained || !e.done[k].is_empty() {
+                            bad.push((format!("round {k}: calls {want:?} got no next request (provider_error) although the outputs could be sent"), "unanswered_without_reason".to_string()));
+                        }
+                    }
+                    other => bad.push((format!("round {k}: calls {want:?} were never answered and the run ended {other:?}"), "unanswered_without_reason".to_string())),
+                }
+            }
+        }
+    }
     // O2: a tool excluded by the configured tool choice is never executed
     if let Some(spec) = &c.choice_spec {
         for (k, d) in e.done.iter().enumerate() {
@@ -1584,6 +1621,11 @@ fn main() {
         }
         if c.thread {
             res.bump("loop-thread-run");
+        }
+        if let Some(k) = o.bodies.len().checked_sub(1) {
+            if c.rounds.get(k).map(|rd| rd.mode == 0 && rd.expected.as_ref().map(|x| !x.is_empty()).unwrap_or(false)).unwrap_or(false) {
+                res.bump(&format!("last-round-calls-unanswered-because={}", e.reason));
+            }
         }
         for (k, (mine, real)) in e.valids.iter().zip(&e.real_valids).enumerate() {
             res.bump(match (mine, real) {
